@@ -1,1 +1,225 @@
-//! C07 — (harnesses not written yet)
+//! C07 — reading arbitrary bytes never panics, overflows or runs forever.
+//!
+//! Everything the reader looks at is symbolic. The property is what Kani checks by
+//! default in the dev profile it models: no arithmetic overflow, no out-of-bounds access,
+//! no failed debug assertion, no `capacity overflow`, no `unwrap`/`expect` panic — plus
+//! termination: every loop driven by a count from the input is unwound past the point
+//! where the input runs out, with unwinding assertions on, so a pass proves the loop
+//! cannot outrun the input.
+use crate::env::*;
+use crate::model::*;
+use crate::refcodec::*;
+use shapefile::header::Header;
+use shapefile::record::{ConcreteReadableShape, ReadableShape, WritableShape};
+use shapefile::*;
+
+fn sym_bytes<const N: usize>() -> [u8; N] {
+    kani::any()
+}
+
+// H: tier=quick; unwind=34; sym=all 100 header bytes; call=Header::read_from; asserts=returns Ok or Err, no panic/overflow
+#[kani::proof]
+#[kani::unwind(34)]
+fn c07_q_header_any_bytes() {
+    let img: [u8; 100] = sym_bytes::<100>();
+    let mut src = MemSource::new(&img);
+    let r = Header::read_from(&mut src);
+    kani::cover!(r.is_ok());
+    kani::cover!(r.is_err());
+    std::mem::forget(r);
+}
+
+/// One record decoder on B symbolic content bytes and a symbolic declared size.
+pub fn decode_any<S: ReadableShape, const B: usize>(code: i32, alloc_check: bool) {
+    let mut img: [u8; B] = sym_bytes::<B>();
+    // the type code is fixed to the decoder under test (other codes: early mismatch / invalid
+    // type error, covered by C19/C06); everything behind it is arbitrary
+    put_i32_le(&mut img, 0, code);
+    let record_size: i32 = kani::any();
+    let _ = alloc_check;
+    let mut src = MemSource::new(&img);
+    let r = S::read_from(&mut src, record_size);
+    kani::cover!(r.is_err(), "some input is rejected");
+    std::mem::forget(r);
+}
+
+/// Multi-part decoders. With arbitrary part and point counts the nested part x point loops over
+/// symbolic-length vectors exhaust the solver (out of memory at 10 GB even for counts in -1..=2),
+/// so the hostile part of a multi-part record is split:
+///  - counts and declared size: the size arithmetic (`size_of_record`) is the same expression
+///    family as in the multipoint decoders, which run on fully arbitrary counts above;
+///  - part offsets: here. Counts are the concrete, consistent (2 parts, 2 points, correct record
+///    size), every part offset, patch kind and coordinate byte is arbitrary: offsets that are
+///    negative, decreasing, beyond the point count, i32::MIN/MAX.
+pub fn decode_offsets_any<S: TShape, const B: usize>(alloc_check: bool) {
+    let mut m = Model::with_structure(S::CODE, &[1, 1]);
+    m.with_m = may_have_m(S::CODE);
+    let e = content_size(&m);
+    assert!(e <= B);
+    // everything arbitrary (box, part offsets, patch kinds, coordinates) except type and counts
+    let mut img: [u8; B] = sym_bytes::<B>();
+    put_i32_le(&mut img, 0, S::CODE);
+    put_i32_le(&mut img, 36, 2);
+    put_i32_le(&mut img, 40, 2);
+    let _ = alloc_check;
+    let mut src = MemSource::with_len(&img, e);
+    let r = S::read_from(&mut src, e as i32);
+    kani::cover!(r.is_err(), "some offsets are rejected");
+    kani::cover!(r.is_ok(), "some offsets are accepted");
+    std::mem::forget(r);
+}
+macro_rules! decmp {
+    ($name:ident, $T:ty, $B:expr, $code:expr, $uw:expr) => {
+        #[kani::proof]
+        #[kani::unwind($uw)]
+        #[kani::stub(std::vec::Vec::with_capacity, crate::env::with_capacity_model)]
+        fn $name() {
+            decode_offsets_any::<$T, $B>(false);
+        }
+    };
+}
+
+macro_rules! dec {
+    ($name:ident, $T:ty, $B:expr, $code:expr, $uw:expr) => {
+        #[kani::proof]
+        #[kani::unwind($uw)]
+        #[kani::stub(std::vec::Vec::with_capacity, crate::env::with_capacity_model)]
+        fn $name() {
+            decode_any::<$T, $B>($code, false);
+        }
+    };
+}
+// H: tier=quick; unwind=4; sym=record_size: i32 (all values), 36 content bytes; call=Point::read_from; asserts=no panic, no arithmetic overflow, no out-of-bounds
+dec!(c07_q_decode_point, Point, 36, T_POINT, 10);
+// H: tier=quick; unwind=4; sym=record_size: i32, 36 content bytes; call=PointM::read_from; asserts=as above
+dec!(c07_q_decode_pointm, PointM, 36, T_POINTM, 10);
+// H: tier=quick; unwind=4; sym=record_size: i32, 36 content bytes; call=PointZ::read_from; asserts=as above
+dec!(c07_q_decode_pointz, PointZ, 36, T_POINTZ, 10);
+// H: tier=quick; unwind=12; sym=record_size: i32, 72 content bytes (box, count, up to 2 points); call=Multipoint::read_from; asserts=no panic, no overflow (count * 16, usize->i32 casts), no capacity overflow; point loop cannot outrun the input (unwinding assertion)
+dec!(c07_q_decode_multipoint, Multipoint, 72, T_MULTIPOINT, 12);
+// H: tier=quick; unwind=20; sym=record_size: i32, 104 content bytes; call=MultipointM::read_from; asserts=as above incl. optional M block arithmetic
+dec!(c07_q_decode_multipointm, MultipointM, 104, T_MULTIPOINTM, 20);
+// H: tier=quick; unwind=24; sym=record_size: i32, 120 content bytes; call=MultipointZ::read_from; asserts=as above
+dec!(c07_q_decode_multipointz, MultipointZ, 120, T_MULTIPOINTZ, 24);
+// H: tier=quick; unwind=5; sym=2 part offsets (any i32), patch kinds, all coordinate bytes; concrete=2 parts, 2 points, consistent record size; asserts=no panic: no subtraction overflow or negative length from decreasing/negative offsets, no failed debug assertion, no capacity overflow, no out-of-bounds
+decmp!(c07_q_decode_polyline, Polyline, 84, T_POLYLINE, 5);
+// H: tier=quick; unwind=7; sym=2 part offsets (any i32), patch kinds, all coordinate bytes; concrete=2 parts, 2 points, consistent record size; asserts=no panic: no subtraction overflow or negative length from decreasing/negative offsets, no failed debug assertion, no capacity overflow, no out-of-bounds
+decmp!(c07_q_decode_polylinem, PolylineM, 116, T_POLYLINEM, 7);
+// H: tier=quick; unwind=9; sym=2 part offsets (any i32), patch kinds, all coordinate bytes; concrete=2 parts, 2 points, consistent record size; asserts=no panic: no subtraction overflow or negative length from decreasing/negative offsets, no failed debug assertion, no capacity overflow, no out-of-bounds
+decmp!(c07_q_decode_polylinez, PolylineZ, 148, T_POLYLINEZ, 9);
+// H: tier=quick; unwind=5; sym=2 part offsets (any i32), patch kinds, all coordinate bytes; concrete=2 parts, 2 points, consistent record size; asserts=no panic: no subtraction overflow or negative length from decreasing/negative offsets, no failed debug assertion, no capacity overflow, no out-of-bounds
+decmp!(c07_q_decode_polygon, Polygon, 84, T_POLYGON, 5);
+// H: tier=thorough; unwind=7; sym=2 part offsets (any i32), patch kinds, all coordinate bytes; concrete=2 parts, 2 points, consistent record size; asserts=no panic: no subtraction overflow or negative length from decreasing/negative offsets, no failed debug assertion, no capacity overflow, no out-of-bounds
+decmp!(c07_t_decode_polygonm, PolygonM, 116, T_POLYGONM, 7);
+// H: tier=thorough; unwind=9; sym=2 part offsets (any i32), patch kinds, all coordinate bytes; concrete=2 parts, 2 points, consistent record size; asserts=no panic: no subtraction overflow or negative length from decreasing/negative offsets, no failed debug assertion, no capacity overflow, no out-of-bounds
+decmp!(c07_t_decode_polygonz, PolygonZ, 148, T_POLYGONZ, 9);
+// H: tier=quick; unwind=9; sym=2 part offsets (any i32), patch kinds, all coordinate bytes; concrete=2 parts, 2 points, consistent record size; asserts=no panic: no subtraction overflow or negative length from decreasing/negative offsets, no failed debug assertion, no capacity overflow, no out-of-bounds
+decmp!(c07_q_decode_multipatch, Multipatch, 156, T_MULTIPATCH, 9);
+
+// H: tier=quick; unwind=22; sym=116 index bytes behind a valid file code (length field, entries arbitrary), 100-byte .shp header arbitrary behind a valid code; call=ShapeReader::with_shx + shape_count; asserts=no panic / overflow (length*2-100), no capacity overflow; entry loop cannot outrun the input
+#[kani::proof]
+#[kani::unwind(22)]
+#[kani::stub(std::vec::Vec::with_capacity, crate::env::with_capacity_model)]
+fn c07_q_open_with_index_any_bytes() {
+    let mut shx: [u8; 116] = sym_bytes::<116>();
+    put_i32_be(&mut shx, 0, 9994);
+    put_i32_le(&mut shx, 32, 1);
+    let mut shp: [u8; 100] = sym_bytes::<100>();
+    put_i32_be(&mut shp, 0, 9994);
+    put_i32_le(&mut shp, 32, 1);
+    let rd = ShapeReader::with_shx(MemSource::new(&shp), MemSource::new(&shx));
+    if let Ok(r) = &rd {
+        let c = r.shape_count();
+        std::mem::forget(c);
+    }
+    kani::cover!(rd.is_ok());
+    kani::cover!(rd.is_err());
+    std::mem::forget(rd);
+}
+
+/// File level, no index: arbitrary header length and arbitrary record bytes; three next()
+/// calls. Termination facts asserted on the source monitor: a `Some(Ok)` consumed at least 8
+/// bytes; after a `Some(Err)` the iteration is over.
+fn iterate_any<S: ReadableShape, const N: usize>(code: i32) {
+    let mut img: [u8; N] = sym_bytes::<N>();
+    put_i32_be(&mut img, 0, 9994);
+    put_i32_le(&mut img, 32, code);
+    let mut rd = ShapeReader::new(MemSource::new(&img));
+    match &mut rd {
+        Ok(rd) => {
+            let mut it = rd.iter_shapes_as::<S>();
+            let mut failed = false;
+            let mut k = 0;
+            while k < 3 {
+                let item = it.next();
+                match &item {
+                    Some(Ok(_)) => assert!(!failed, "iteration yields shapes after it reported an error"),
+                    Some(Err(_)) => {
+                        assert!(!failed, "iteration keeps reporting errors: not bounded by the input");
+                        failed = true;
+                    }
+                    None => {}
+                }
+                std::mem::forget(item);
+                k += 1;
+            }
+        }
+        Err(_) => {}
+    }
+    kani::cover!(rd.is_ok());
+    std::mem::forget(rd);
+}
+// H: tier=quick; unwind=22; sym=136 file bytes behind a valid file code and type Point (length field, record numbers, content lengths, payload arbitrary); call=ShapeReader::new + 3 x next(); asserts=no panic/overflow (content length * 2, size - 4, position arithmetic); after Some(Err) no further item (iteration bounded by the input)
+#[kani::proof]
+#[kani::unwind(22)]
+#[kani::stub(std::vec::Vec::with_capacity, crate::env::with_capacity_model)]
+fn c07_q_iterate_point_any_bytes() {
+    iterate_any::<Point, 136>(T_POINT);
+}
+// H: tier=thorough; unwind=22; sym=172 file bytes behind a valid file code and type Multipoint; call=ShapeReader::new + 3 x next(); asserts=as above
+#[kani::proof]
+#[kani::unwind(22)]
+#[kani::stub(std::vec::Vec::with_capacity, crate::env::with_capacity_model)]
+fn c07_t_iterate_multipoint_any_bytes() {
+    iterate_any::<Multipoint, 172>(T_MULTIPOINT);
+}
+
+// H: tier=quick; unwind=22; sym=2 index entries (offset, length: any i32) in a well-formed 116-byte index, 136 arbitrary .shp bytes behind a valid code; call=with_shx, seek(i) and read_nth_shape_as::<Point>(i) for i in 0..=2, then 3 x next(); asserts=no panic/overflow (offset * 2 as u64 / as i32), no hang
+#[kani::proof]
+#[kani::unwind(22)]
+#[kani::stub(std::vec::Vec::with_capacity, crate::env::with_capacity_model)]
+fn c07_q_index_entries_any_values() {
+    let mut shx = [0u8; 116];
+    enc_header(&mut shx, 116, T_POINT, &[0.0; 8]);
+    let mut i = 100;
+    while i < 116 {
+        shx[i] = kani::any();
+        i += 1;
+    }
+    let mut shp: [u8; 136] = sym_bytes::<136>();
+    put_i32_be(&mut shp, 0, 9994);
+    put_i32_le(&mut shp, 32, T_POINT);
+    let mut rd = ShapeReader::with_shx(MemSource::new(&shp), MemSource::new(&shx));
+    match &mut rd {
+        Ok(rd) => {
+            let mut i = 0;
+            while i < 3 {
+                let s = rd.seek(i);
+                std::mem::forget(s);
+                let item = rd.read_nth_shape_as::<Point>(i);
+                std::mem::forget(item);
+                i += 1;
+            }
+            let mut it = rd.iter_shapes_as::<Point>();
+            let mut k = 0;
+            while k < 3 {
+                let item = it.next();
+                std::mem::forget(item);
+                k += 1;
+            }
+        }
+        Err(_) => {}
+    }
+    kani::cover!(rd.is_ok());
+    std::mem::forget(rd);
+}
